@@ -1075,8 +1075,10 @@ impl Check for C14 {
             };
             match plain.compile(&c.source(), "") {
                 Compiled::Ok(_) => {}
-                Compiled::Report(r, _) => return Err(format!("mut generator: {}\n{r}", c.source())),
-                Compiled::Panic(p) => return Err(format!("mut generator: {}\n{p}", c.source())),
+                // (not a machinery error: on a changed tree this IS the violation, and the units
+                // that run the same programs report it; seeded change C14-6 ended here with exit 2)
+                Compiled::Report(r, _) => eprintln!("C14 preflight note: a read-only program of the mut family is rejected: {}\n{r}", c.source()),
+                Compiled::Panic(p) => eprintln!("C14 preflight note: a read-only program of the mut family panics the compiler: {}\n{p}", c.source()),
             }
         }
         // every name set must be usable for every role: one accepted program per
@@ -1096,8 +1098,8 @@ impl Check for C14 {
                 };
                 match env.compile(&c.source(), "") {
                     Compiled::Ok(_) => {}
-                    Compiled::Report(r, _) => return Err(format!("cycctx generator: {}\n{r}", c.source())),
-                    Compiled::Panic(p) => return Err(format!("cycctx generator: {}\n{p}", c.source())),
+                    Compiled::Report(r, _) => eprintln!("C14 preflight note: an accepted cycctx program is rejected: {}\n{r}", c.source()),
+                    Compiled::Panic(p) => eprintln!("C14 preflight note: an accepted cycctx program panics the compiler: {}\n{p}", c.source()),
                 }
             }
         }
